@@ -1,10 +1,10 @@
 #!/usr/bin/env bash
 # usage: mkmutant.sh <name> <python-snippet-file>   (helper used while authoring mutants)
 # Applies a python edit script to /repo, saves the diff as mutants/<name>.diff, restores /repo.
-set -eu
+set -u
 name=$1; script=$2
 cd /repo
-python3 "$script"
+python3 "$script" || { git checkout -- .; exit 1; }
 git diff > /verif/mutants/$name.diff
 git checkout -- .
 test -s /verif/mutants/$name.diff || { echo "empty diff for $name"; exit 1; }
